@@ -10,6 +10,7 @@ import DriverOps.Channel
 import DriverOps.DataWrite
 import DriverOps.WriteObj
 import DriverOps.Transform
+import DriverOps.ReadObj
 /-
 Line protocol: one JSON request per line on stdin, one JSON answer per line on stdout.
 The driver only (de)serialises; every answer is computed by the definitions in `LasioModel`,
@@ -37,6 +38,7 @@ def handle (j : Json) : Except String Json := do
     | some "dw" => handleDataWrite op j
     | some "wo" => handleWriteObj op j
     | some "tf" => handleTransform op j
+    | some "ro" => handleReadObj op j
     | _ => throw s!"unknown op {op}"
 
 partial def loop (hin hout : IO.FS.Stream) : IO Unit := do
